@@ -57,6 +57,8 @@ func init() {
 			RunE1(c, "C11", obs)
 			RunEncodingLevels(c, []string{"op", "client", "client/rp", "client/rs", "http", "oidc"})
 			RunFormPostTemplate(c)
+			// nothing between the socket and the request parser rewrites the query / form the parameters are read from
+			RunRouterMiddleware(c, "E7.router.middleware", []string{"op"})
 			// request parameters reach the response exactly as sent: the request decoder and the response encoder are plain
 			// (no converters, no zero-empty, no alias tag); the one registered encoder is the space-delimited list
 			RunExternalMethodAllow(c, "E7.codec.decoder-plain", "zitadel/schema", "Decoder", map[string][]string{"IgnoreUnknownKeys": nil, "Decode": nil},
